@@ -164,6 +164,22 @@ def run(ctx):
                 add_helpers(n, v)
                 add_enc(n, v, v)
                 add_enc(n, 1, v)
+    # a walk that keeps coming back to the last few (order, value) arguments with others in between: helpers and codecs may not
+    # remember earlier calls (small caches / memo tables keyed incompletely or updated inconsistently show up on revisits)
+    pool_n = [7, 255, 256, 257, 65537] + orders[:17] + [2 ** 64 + 13]
+    recent_n, recent_v = [], []
+    for t in range(500 if quick else 4000):
+        n = rnd.choice(recent_n[-4:]) if recent_n and rnd.random() < 0.6 else rnd.choice(pool_n)
+        if n in recent_n:
+            recent_n.remove(n)
+        recent_n.append(n)
+        v = rnd.choice(recent_v[-4:]) if recent_v and rnd.random() < 0.5 else rnd.choice([0, 1, 5, 127, 128, 255, 256, 65535, rnd.randrange(1 << 60)])
+        recent_v.append(v)
+        if v < n:
+            if t % 2:
+                add_helpers(n, v)
+            else:
+                add_enc(n, v, rnd.choice(recent_v[-3:]) % n)
     # beyond the listed property: other helpers and curve metadata (same specification module)
     from ecdsa import ecdsa as ecmod, curves as curvesmod
     for v in sorted({0, 1, 127, 128, 255, 256, 65535, 65536, 2 ** 64, 2 ** 521 - 1} | {rnd.randrange(2 ** 200) for _ in range(5)}):
